@@ -100,9 +100,12 @@ def insertKnot [FloorRing K] (b : Basis K) (x0 : K) : PyM (Basis K × Mat K) :=
     -- always and knots[i+p] only when the short-circuit `and`/`else` reaches it:
     --   knots[i+p-1] <= x (then `x <= knots[i+p]` is evaluated), or the second guard
     --   `knots[i] <= x <= knots[i+1]` fails (its else branch reads knots[i+p]).
-    if mu - p < mu ∧ (mu + p ≥ size + 2 ∨
-        (mu + p = size + 1 ∧ (b.kn (size - 1) ≤ x ∨ ¬ (b.kn (mu - 1) ≤ x ∧ x ≤ b.kn mu)))) then .error .index
+    -- `C = np.zeros((n + 1, n))` refuses a negative dimension (`ValueError`); with `n = 0` the first index
+    -- expression `i % n` that is evaluated raises `ZeroDivisionError` (before any knot is read out of range)
+    if (size : Int) - (p : Int) - (b.periodic + 1) < 0 then .error .value
     else if n = 0 then .error .zeroDiv
+    else if mu - p < mu ∧ (mu + p ≥ size + 2 ∨
+        (mu + p = size + 1 ∧ (b.kn (size - 1) ≤ x ∨ ¬ (b.kn (mu - 1) ≤ x ∧ x ≤ b.kn mu)))) then .error .index
     else
       let C0 : Array (Array K) := Array.replicate (n + 1) (Array.replicate n 0)
       let setC (C : Array (Array K)) (r c : ℕ) (v : K) : Array (Array K) :=
@@ -178,13 +181,16 @@ def roll (b : Basis K) (newStart : ℕ) : PyM (Basis K) :=
   let right := (b.knots.extract 0 (n - lenLeft)).map (fun x => x - t1)
   .ok { b with knots := left ++ right }
 
-/-- `make_periodic(continuity)` on a basis. -/
+/-- `make_periodic(continuity)` on a basis.  Python ints: `n_reps = deg - continuity - 1` may be negative
+    (`[x] * n_reps` is then empty) and `n_copy = deg - n_reps = continuity + 1` whatever its sign; for order 1
+    the slice `knots[deg:-deg]` is `knots[0:-0] = knots[0:0]`, empty (the constructor then raises
+    `ValueError`). -/
 def makePeriodic (b : Basis K) (tol : K) (continuity : ℕ) : PyM (Basis K) :=
   let deg := b.order - 1
-  let nk := b.knots.extract deg (b.knots.size - deg)
+  let nk := if deg = 0 then #[] else b.knots.extract deg (b.knots.size - deg)
   let diff := b.stop - b.start
   let nReps := deg - continuity - 1
-  let nCopy := deg - nReps
+  let nCopy := continuity + 1
   let m := nk.size
   let head := (nk.extract (m - nCopy - 1) (m - 1)).map (fun x => x - diff)
   let tail := (nk.extract 1 (nCopy + 1)).map (fun x => x + diff)
